@@ -218,10 +218,12 @@ class Ctx:
             k = x[0]
             if k == 'deref':
                 v = deref(v)
-                if isinstance(v, BoxUninitV): v = v
+                if isinstance(v, BoxV): v = v[0]
             elif k == 'field':
                 v = deref(v)
-                if isinstance(v, tuple) and v[0] == 'corovar':
+                if isinstance(v, BoxV):
+                    pass
+                elif isinstance(v, tuple) and v[0] == 'corovar':
                     v = v[1].var[(v[2], x[1])]
                 elif isinstance(v, EnumV): v = v.fields[x[1]]
                 elif isinstance(v, StructV): v = v.nth(x[1])
@@ -524,7 +526,9 @@ class Ctx:
         if kind == 'named':
             return StructV(last, vals)
         if kind == 'tuple':
-            if last in ('Box', 'Pin', 'Wrapping', 'ManuallyDrop', 'Arc', 'Rc') and len(vals) == 1:
+            if last == 'Box' and len(vals) == 1:
+                return BoxV([vals[0][1]])
+            if last in ('Pin', 'Wrapping', 'ManuallyDrop', 'Arc', 'Rc') and len(vals) == 1:
                 return Tup([vals[0][1]])
             return StructV(last, vals)
         # unit: a unit struct or a function item
@@ -939,6 +943,7 @@ def last_seg_of(key):
 
 
 def copy_val(v):
+    if isinstance(v, BoxV): return v
     if isinstance(v, Tup): return Tup([copy_val(x) for x in v])
     if isinstance(v, ArrV): return ArrV([copy_val(x) for x in v])
     if isinstance(v, EnumV): return EnumV(v.ty, v.variant, [copy_val(x) for x in v.fields])
@@ -949,6 +954,7 @@ def copy_val(v):
 def clone_val(v):
     """deep structural clone (Clone::clone on owned data)"""
     v = deref(v)
+    if isinstance(v, BoxV): return BoxV([clone_val(x) for x in v])
     if isinstance(v, Tup): return Tup([clone_val(x) for x in v])
     if isinstance(v, ArrV): return ArrV([clone_val(x) for x in v])
     if isinstance(v, EnumV): return EnumV(v.ty, v.variant, [clone_val(x) for x in v.fields])
@@ -1041,7 +1047,7 @@ def normalize_callee(c):
         ty = inner[:pos]; tr = inner[pos + 4:]
         trn = last_seg(strip_angle(tr).strip())
         return (trn + '::' + meth, ty, trn)
-    m = re.match(r'^(?:core|std|alloc)::(slice|str|num|char|array|ptr|f64|f32)::<impl (.*?)>::(.*)$', c, re.S)
+    m = re.match(r'^(?:\w+::)*(slice|str|num|char|array|ptr|f64|f32)::<impl (.*?)>::(.*)$', c, re.S)
     if m:
         t = m.group(2).strip()
         if t.startswith('['): t = 'slice'
